@@ -395,7 +395,8 @@ def generate(rng, tier, count):
             yield O.generate_one(R, tier)
             continue
         k = R.random()
-        header = C.gen_grid_header(R) if k < 0.7 else None
+        # 12 % Voronoi spaces on their own: their copy re-triangulates (and could re-derive what the constructor derives)
+        header = C.gen_grid_header(R) if k < 0.7 else C.gen_vor_header(R) if k > 0.88 else None
         base = C.gen_c06(R, n_ops=R.randint(2, 10), header=header)
         lines = list(base.lines)
         h = C.Header(lines[0].split())
@@ -423,6 +424,10 @@ def generate(rng, tier, count):
                 lines.append(f"layer add {nm} {R.randrange(5)}")
             for _ in range(R.randint(0, 4)):
                 lines.append(layer_op())
+        if R.random() < (0.4 if h.kind == "grid" else 0.7):
+            # capacities written by hand after construction (`cell.capacity = k`): the copy must carry them, not the constructor's
+            for _ in range(R.randint(1, 2)):
+                lines.append(C.gen_setcap(R, h, names))
         lines.append("copy " + R.choice(["deepcopy", "pickle"]))
 
         def cell_op(prefix):
@@ -440,6 +445,8 @@ def generate(rng, tier, count):
                 return f"{prefix}remove {a}"
             if j < 0.75:
                 return f"{prefix}new {R.choice(['cell', 'cell', 'fixed'])}"
+            if j < 0.78:
+                return prefix + C.gen_setcap(R, h, names)  # each side's capacities are its own
             if j < 0.82:
                 return f"{prefix}nbhd {R.choice(names)} {R.randint(1, 2)} {R.randint(0, 1)}"
             if j < 0.87:
@@ -489,7 +496,7 @@ def nontrivial(sc, obs):
         return False
     has_agent = any("occ=" in o and "occ= |" not in o for o in obs[:i] if "|" in o)
     sides = {l.split()[0] for l, o in zip(sc.lines[i + 1:], obs[i + 1:]) if o.startswith("ok") and l.split()[1] in
-             ("set", "moveto", "moverel", "remove", "new", "layer")}
+             ("set", "moveto", "moverel", "remove", "new", "layer", "setcap")}
     return has_agent and {"o", "c"} <= sides
 
 
